@@ -16,6 +16,9 @@ Line protocol (after the property id):
   sess <user Fs p/q|none> <rate0 p/q> <ev> …   SparseCoherenceAnalyzer session, `set_input` body = `Generated.SetInput.sparse`:
       `s<rate p/q>:<refused 0|1>:<series id>`, `f` (read a result computed with method['Fs']), `r` reset();
       answer per read: `<id of the series held>@<the rate used, p/q>`
+  keyed <cache_fft|cache_to_psd|cache_to_phase> <set iteration order c,c,…> <ij>   the channel bookkeeping (`Model/C09Keys.lean`) with the
+      key / fill orderings `Generated.CacheKeys` extracted from the current source; the iteration order of the channel set is data.
+      answer: `<key>=<row of the recording whose value lies under that key>` per requested channel, ascending
 -/
 import Nitime.Model.CohBase
 import Nitime.Model.C09Win
@@ -24,6 +27,8 @@ import Nitime.Model.C09Out
 import Nitime.Generated.CacheOut
 import Nitime.Model.CohSession
 import Nitime.Generated.SetInput
+import Nitime.Model.C09Keys
+import Nitime.Generated.CacheKeys
 
 namespace Nitime.C09
 open Nitime.Coh Nitime.Coh.CScalar
@@ -246,8 +251,26 @@ def handleSess (args : List String) : String :=
     | _, _, _ => "bad-args"
   | _ => "bad-args"
 
+def handleKeyed (args : List String) : String :=
+  match args with
+  | [fn, sIter, sIj] =>
+    let it : Option (List Nat) := (sIter.splitOn ",").mapM (·.toNat?)
+    match Nitime.Generated.CacheKeys.table.lookup fn, Nitime.Generated.CacheKeys.table.lookup "cache_fft", it, parsePairs? sIj with
+    | some sq, some sf, some it, some ij =>
+      if sq.keyOrd == .unknown || sq.valOrd == .unknown || sf.keyOrd == .unknown || sf.valOrd == .unknown then "unsupported" else
+      -- values are row numbers: `slices` and `post` are the identity, so the answer names the ROW whose value lies under each key
+      let d : List (Nat × Nat) :=
+        if fn = "cache_fft" then Keys.keyed sf it ij (fun c => c)
+        else Keys.cacheThenQuery sf sq it it ij (fun c => c) (fun r => r) (fun r => r) 1000000
+      let ks := Keys.sortNat (d.map (·.1))
+      if ks != uniqSorted (ij.flatMap fun (a, b) => [a, b]) then "keys " ++ ",".intercalate (ks.map toString) else
+      "ok " ++ " ".intercalate (ks.map fun k => toString k ++ "=" ++ toString ((d.lookup k).getD 1000000))
+    | _, _, _, _ => "bad-args"
+  | _ => "bad-args"
+
 def handle (args : List String) : String :=
   match args with
+  | "keyed" :: rest => handleKeyed rest
   | "outhist" :: rest => handleOutHist rest
   | "sess" :: rest => handleSess rest
   | "grid" :: rest => (handleGrid rest).getD "bad-op"
